@@ -46,7 +46,7 @@ NATURAL = {
 }
 
 
-def build_hint(fam, item, wrap):
+def build_hint(fam, item, wrap, keyhint='int'):
     t = ITEM[item]
     if fam in ('Iterable', 'TIterable', 'Container', 'Reversible'):
         node = ['quasi', fam, t]
@@ -59,7 +59,8 @@ def build_hint(fam, item, wrap):
     elif fam in ('Iterator', 'Generator'):
         node = None
     else:
-        node = ['map', fam, ['cls', 'int'], t]
+        # the key hint is the class of the keys or an ignorable hint (value-only code path of the mapping check)
+        node = ['map', fam, {'int': ['cls', 'int'], 'Any': ['any', 'Any'], 'object': ['any', 'object']}[keyhint], t]
     if node is None:
         import collections.abc as cabc
         tt = H.build(t)
@@ -205,6 +206,7 @@ def _case(draw, tier):
         kind = draw(st.sampled_from(NATURAL[fam]))
     return {'fam': fam, 'item': draw(st.sampled_from(['int', 'str'])),
             'wrap': draw(st.sampled_from(['none', 'none', 'none', 'optional', 'union', 'union-first', 'tuple', 'list', 'dictvalue'])),
+            'keyhint': draw(st.sampled_from(['Any', 'object', 'int', 'int'])),
             'kind': kind, 'n': draw(st.sampled_from([0, 1, 2, 3, 5])), 'bad': draw(st.sampled_from(['none', 'none', 'all', 'first', 'last'])),
             'draw': draw(st.sampled_from([0, 1, 2, 4, 2 ** 32 - 1]))}
 
@@ -214,7 +216,7 @@ def strategy(tier):
 
 
 def run_case(case):
-    hint = build_hint(case['fam'], case['item'], case['wrap'])
+    hint = build_hint(case['fam'], case['item'], case['wrap'], case.get('keyhint', 'int'))
     kind = case['kind']
     fails, seen, evals = [], set(), 0
 
